@@ -1,4 +1,6 @@
 import MpVerif.C11.LemmasState
+import MpVerif.C11.LemmasLookup
+import MpVerif.C11.ModelPtr
 /-!
 # C11 — Solver option parsing is total, faithful and ordered: property theorems
 
@@ -28,27 +30,6 @@ theorem C11_terminates_within (cfg : Cfg) (s : Bytes) (st : St) : parseIters cfg
       have := ih s'.length (by omega) s' st' rfl
       omega
     · omega
-
-theorem renderAll_startsItem (cfg : Cfg) (items : List (Item × Bytes)) (h : ItemsWF cfg items) :
-    StartsItem (renderAll items) := by
-  cases items with
-  | nil => trivial
-  | cons x rest =>
-    obtain ⟨it, trail⟩ := x
-    obtain ⟨hwf, _⟩ := h
-    have hk : KeyOk' it.key ∧ ∃ X, it.render = it.key ++ X := by
-      cases it with
-      | assign key sep lit => exact ⟨hwf.1, _, rfl⟩
-      | query key sep => exact ⟨hwf.1, _, rfl⟩
-      | unknown key pre eq => exact ⟨hwf.1, _, rfl⟩
-      | flagArg key pre post junk => exact ⟨hwf.1, _, rfl⟩
-    obtain ⟨⟨⟨hne, hkc⟩, hq⟩, X, hX⟩ := hk
-    simp only [renderAll, hX]
-    cases hkey : it.key with
-    | nil => exact absurd hkey hne
-    | cons c r =>
-      simp only [List.cons_append, StartsItem]
-      exact ⟨hkc c (by simp [hkey]), hq c r hkey⟩
 
 /-! ## faithfulness: parse ∘ print = apply -/
 
@@ -198,22 +179,6 @@ theorem C11_unknown_throws (cfg : Cfg) (hthrow : cfg.throwing = true) (key pre :
 /-! ## order: later assignments override earlier ones; sources in the order
 mp_options, <exe>_options or <solver>_options, command line -/
 
-theorem slot_val_untouched (cfg : Cfg) (items : List (Item × Bytes)) (i : Nat) (st : St) (hi : i < st.slots.length)
-    (h : ∀ x ∈ items, ∀ d' v, itemTarget cfg x.1 = some (d', v) → d'.id ≠ i) :
-    ((applyAll cfg items st).slot i).val = (st.slot i).val := by
-  induction items generalizing st with
-  | nil => rfl
-  | cons x rest ih =>
-    simp only [applyAll, List.foldl_cons] at ih ⊢
-    rw [ih (applyItem cfg x.1 st) (by rw [applyItem_length]; exact hi) (fun y hy => h y (by simp [hy]))]
-    rw [slot_val_applyItem cfg x.1 st i hi]
-    cases ht : itemTarget cfg x.1 with
-    | none => rfl
-    | some r =>
-      obtain ⟨d', v⟩ := r
-      have := h x (by simp) d' v ht
-      simp [this]
-
 /-- **Later overrides earlier.**  Whatever precedes it, the last assignment to a plain option
 determines the option's final value. -/
 theorem C11_last_wins (cfg : Cfg) (before after : List (Item × Bytes)) (key : Bytes) (sep : Sep) (lit : Lit)
@@ -229,7 +194,8 @@ theorem C11_last_wins (cfg : Cfg) (before after : List (Item × Bytes)) (key : B
   rw [hcons, slot_val_untouched cfg after d.id _ (by rw [applyItem_length]; exact hlen0) hafter]
   exact (C11_assign_sets_exactly cfg key sep lit st0 d ob hl hp hlen0).1
 
-theorem parseMany_faithful (cfg : Cfg) (hthrow : cfg.throwing = false) (srcs : List (Bytes × List (Item × Bytes)))
+/-- faithfulness over a sequence of option strings parsed one after the other -/
+theorem C11_faithful_sources (cfg : Cfg) (hthrow : cfg.throwing = false) (srcs : List (Bytes × List (Item × Bytes)))
     (hwf : ∀ x ∈ srcs, Blank x.1 ∧ ItemsWF cfg x.2) (st : St) :
     parseMany cfg (srcs.map (fun x => x.1 ++ renderAll x.2)) st =
       (.ok, applyAll cfg (srcs.map (·.2)).flatten st) := by
@@ -256,9 +222,9 @@ theorem C11_order (c : Call) (hthrow : c.throwing = false) (st : St)
       ((srcEnv.map (·.2)).flatten ++ (srcArg.map (·.2)).flatten) { st with errs := [] }) := by
   unfold parseOptions
   simp only [hE, hA]
-  rw [parseMany_faithful _ hthrow srcEnv hEwf]
+  rw [C11_faithful_sources _ hthrow srcEnv hEwf]
   simp only
-  rw [parseMany_faithful _ hthrow srcArg hAwf, applyAll_append]
+  rw [C11_faithful_sources _ hthrow srcArg hAwf, applyAll_append]
   congr 2
 
 /-- the environment sources in the order they are read -/
@@ -268,5 +234,157 @@ theorem C11_env_source_order (c : Call) :
       (match (if c.exePath.isEmpty then none else getenv c.env (stripExt (fileName c.exePath) ++ suffixOptions)) with
        | some v => [v]
        | none => (getenv c.env (c.solverName ++ suffixOptions)).toList) := rfl
+
+/-! ## lookup: name, synonym (any letter case), wildcard pattern -/
+
+/-- any re-casing of a key is `strcasecmp`-equal to it -/
+theorem C11_any_case (mask : List Bool) (b : Bytes) : ciEq (recase mask b) b = true := ciEq_recase mask b
+
+/-- an option is found by its name written in any letter case -/
+theorem C11_lookup_name_anycase (t : Table) (hd : NamesDistinct t) (d : OptDecl) (hmem : d ∈ t)
+    (hw : d.isWildcard = false) (mask : List Bool) :
+    lookup t (recase mask d.name) = some (d, none) :=
+  lookup_by_name hd hmem hw (ciEq_recase mask d.name)
+
+/-- an option is found by any of its synonyms written in any letter case, provided no option's
+name equals the key (the name has priority) and no option earlier in the set order matches it -/
+theorem C11_lookup_synonym_anycase (before after : Table) (d : OptDecl) (syn : Bytes) (mask : List Bool)
+    (hs : syn ∈ d.syns)
+    (hn : ∀ e ∈ before ++ d :: after, ciEq e.name (recase mask syn) = false)
+    (hb : ∀ e ∈ before, e.syns.any (fun s => ciEq (recase mask syn) s) = false ∧
+                        wcMatch e.headTails (recase mask syn) = none) :
+    lookup (before ++ d :: after) (recase mask syn) = some (d, none) :=
+  lookup_by_synonym hn hb hs (ciEq_recase mask syn)
+
+/-- a key `head body tail` addresses the wildcard option `head*tail`; the recorded body is `body` -/
+theorem C11_lookup_wildcard (before after : Table) (d : OptDecl) (h body tl : Bytes)
+    (hname : d.name = h ++ star :: tl) (hh : ∀ c ∈ h, c ≠ star) (hbody : body ≠ [])
+    (hn : ∀ e ∈ before ++ d :: after, ciEq e.name (h ++ (body ++ tl)) = false)
+    (hb : ∀ e ∈ before, e.syns.any (fun s => ciEq (h ++ (body ++ tl)) s) = false ∧
+                        wcMatch e.headTails (h ++ (body ++ tl)) = none)
+    (hs : d.syns.any (fun s => ciEq (h ++ (body ++ tl)) s) = false) :
+    lookup (before ++ d :: after) (h ++ (body ++ tl)) = some (d, some body) :=
+  lookup_by_wildcard hname hh hbody hn hb hs
+
+/-! ## memory safety of the tokeniser: reads bounded by the terminating NUL
+
+Full-strength statement (FALSE on the code as it exists, see the counterexamples below):
+
+  theorem C11_in_bounds : ∀ buf i, NoNul buf → i ≤ buf.length →
+      pSkipToMatchingQuote buf i ≠ none            -- every read index ≤ index of the NUL
+
+and, on the list model:  ∀ cfg s st, (parseStr cfg s st).1 ≠ .overread
+-/
+
+/-- The four `while (*s && …)` scanners (`SkipSpaces`, `SkipNonSpaces`, `SkipToEnd`, the name
+scan) read only indices ≤ the index of the NUL, for every buffer, every start position inside
+it and every byte class; and they compute the list model's `dropWhile`. -/
+theorem C11_in_bounds_partial (p : UInt8 → Bool) (buf : Bytes) (hn : NoNul buf) (i : Nat) (hi : i ≤ buf.length) :
+    ∃ j, pScan p buf i = some j ∧ i ≤ j ∧ j ≤ buf.length ∧ buf.drop j = (buf.drop i).dropWhile p :=
+  pScan_spec p buf hn i hi
+
+/-- `SkipToMatchingQuote` stays within the string **iff** a closing quote exists: it reads beyond
+the NUL exactly when the list model reports an over-read. -/
+theorem C11_in_bounds_quote_iff (buf : Bytes) (i : Nat) (hi : i < buf.length) (hq : buf[i] ≠ 0) :
+    pSkipToMatchingQuote buf i = none ↔ skipToMatchingQuote buf[i] (buf.drop (i + 1)) = none := by
+  unfold pSkipToMatchingQuote skipToMatchingQuote
+  rw [rd_lt hi]
+  simp only [pFind_spec buf[i] hq buf (i + 1) (by omega)]
+  cases findByte buf[i] (buf.drop (i + 1)) <;> simp
+
+/-- **Counterexample (pointer level).**  Buffer `x='` (3 bytes + NUL), `s` at the quote (index 2):
+the scan reads index 4, beyond the NUL at index 3. -/
+theorem C11_counterexample_unterminated_quote_ptr : pSkipToMatchingQuote [120, 61, 39] 2 = none :=
+  (C11_in_bounds_quote_iff [120, 61, 39] 2 (by decide) (by decide)).mpr (by decide)
+
+def cxTable : Table := buildTable [{ id := 0, name := [120], syns := [], kind := .str },
+                                   { id := 1, name := [98, 105, 103], syns := [], kind := .int }]
+def cxCfg : Cfg := { table := cxTable, noEcho := true, cmdLine := false, throwing := false }
+
+/-- **Counterexample (parser level).**  With a string option `x`, the option text `x='` taken from
+an environment variable makes `ParseOptionString` read beyond the terminating NUL. -/
+theorem C11_counterexample_unterminated_quote :
+    (parseStr cxCfg [120, 61, 39] (initState [{ id := 0, name := [120], syns := [], kind := .str }])).1 = .overread := by
+  have h : step cxCfg [120, 61, 39] (initState [{ id := 0, name := [120], syns := [], kind := .str }]) =
+      .stop .overread (initState [{ id := 0, name := [120], syns := [], kind := .str }]) := by rfl
+  rw [parseStr_stop h]
+
+/-- An over-read can only come from an unterminated quote at the start of a string option's
+value read from an environment variable (never on the command line). -/
+theorem C11_overread_only_unterminated_quote (cfg : Cfg) (d : OptDecl) (s : Bytes) (st st' : St)
+    (h : parseValue cfg d s st = .stop .overread st') :
+    cfg.cmdLine = false ∧ ∃ q r, s = q :: r ∧ isQuote q = true ∧ findByte q r = none := by
+  unfold parseValue at h
+  split at h
+  · cases h
+  · simp only at h; split at h <;> cases h
+  · cases h
+  · split at h
+    · rename_i hp
+      unfold parseStrVal at hp
+      split at hp
+      · cases hp
+      · rename_i hcl
+        split at hp
+        · rename_i c r
+          split at hp
+          · rename_i hq
+            refine ⟨by simpa using hcl, c, r, rfl, hq, ?_⟩
+            unfold skipToMatchingQuote at hp
+            split at hp
+            · assumption
+            · cases hp
+          · cases hp
+        · cases hp
+    · cases h
+
+/-! ## integer values outside `int`
+
+Full-strength statement (FALSE on the code as it exists): an integer literal of any size is
+stored exactly or rejected.  `OptionHelper<int>::Parse` narrows `strtol`'s `long` to `int`. -/
+
+/-- **Counterexample.**  `big=3000000000` stores -1294967296 (no error). -/
+theorem C11_counterexample_int_wrap :
+    (parseInt [51, 48, 48, 48, 48, 48, 48, 48, 48, 48]).1 = -1294967296 := by decide
+
+/-- what is stored for an integer literal of any size: the value clamped to `long`, then wrapped to `int` -/
+theorem C11_int_stored_partial (l : IntLit) (hl : l.WF) (tail : Bytes) (ht : StopsAt isDigit tail) :
+    parseInt (l.render ++ tail) = (wrap32 (clampLong l.value), tail) ∧
+    (-2147483648 ≤ l.value → l.value ≤ 2147483647 → wrap32 (clampLong l.value) = l.value) :=
+  ⟨parseInt_lit l hl ht, wrap32_clamp_id⟩
+
+/-! ## non-vacuity -/
+
+def cxSt0 : St := initState [{ id := 0, name := [120], syns := [], kind := .str }, { id := 1, name := [98, 105, 103], syns := [], kind := .int }]
+
+-- BIG (upper case) resolves to the option named `big`
+example : (lookup cxTable [66, 73, 71]).map (·.1.id) = some 1 := by decide
+-- `z=1`: two unknown keys (`z`, then `1`), no value changes
+example : parseStr cxCfg [122, 61, 49] cxSt0 = (.ok, { cxSt0 with errs := [.unknown [49], .unknown [122]] }) := by
+  rw [parseStr_cont (s' := [49]) (st' := { cxSt0 with errs := [.unknown [122]] }) (by rfl)]
+  rw [parseStr_cont (s' := []) (st' := { cxSt0 with errs := [.unknown [49], .unknown [122]] }) (by rfl)]
+  exact parseStr_done (by rfl)
+-- quoted string with a blank: x='a b'
+example : parseStr cxCfg [120, 61, 39, 97, 32, 98, 39] cxSt0 =
+    (.ok, { slots := [{ val := .str [97, 32, 98] }, { val := .int 0 }] }) := by
+  rw [parseStr_cont (s' := []) (st' := { slots := [{ val := .str [97, 32, 98] }, { val := .int 0 }] }) (by rfl)]
+  exact parseStr_done (by rfl)
+-- the hypotheses of C11_faithful are satisfiable: the item list [big = 42] is well-formed for cxCfg
+theorem C11_nonvacuous_items_wf : ItemsWF cxCfg [(.assign [98, 105, 103] { pre := [], eq := true, post := [] } (.int { sign := none, ds := [52, 50] }), [])] := by
+  have hd : AllDigits [52, 50] := by intro c hc; simp at hc; rcases hc with rfl | rfl <;> decide
+  have hk : KeyOk' [98, 105, 103] := ⟨⟨by simp, by decide⟩, by intro c r h; cases h; decide⟩
+  refine ⟨⟨hk, ⟨Blank.nil, Blank.nil⟩,
+      ⟨{ id := 1, name := [98, 105, 103], syns := [], kind := .int }, none, by rfl, rfl, fun l _ => rfl⟩,
+      ⟨⟨by simp, hd⟩, by decide, by decide⟩, by simp, by simp⟩,
+    Blank.nil, by simp, by simp [isRawAssign], trivial⟩
+-- … so C11_faithful applies to the text `big=42`: it parses to "slot of `big` := 42"
+example : parseStr cxCfg ([] ++ renderAll [(.assign [98, 105, 103] { pre := [], eq := true, post := [] } (.int { sign := none, ds := [52, 50] }), [])]) cxSt0
+    = (.ok, applyAll cxCfg [(.assign [98, 105, 103] { pre := [], eq := true, post := [] } (.int { sign := none, ds := [52, 50] }), [])] cxSt0) :=
+  C11_faithful cxCfg rfl _ C11_nonvacuous_items_wf [] Blank.nil cxSt0
+example : (Lit.int { sign := none, ds := [52, 50] }).val = .int 42 := by decide
+-- strtod extent: "1.5e3x" consumes 5 bytes, "0x" consumes 1, "nan(1)" consumes 6
+example : (parseDbl [49, 46, 53, 101, 51, 120]).2 = [120] := by decide
+example : (parseDbl [48, 120]).2 = [120] := by decide
+example : (parseDbl [110, 97, 110, 40, 49, 41]).2 = [] := by decide
 
 end MpVerif.C11
